@@ -36,6 +36,10 @@ file_props.setdefault("component_definition/base.go", []).extend(["C01", "C02"])
 args = sys.argv[1:]
 only = None
 limit = None
+from_log = None
+for i, a in enumerate(args):
+    if a == "--from-log":
+        from_log = args[i + 1]  # re-check only the survivors listed in an earlier sweep's log
 for i, a in enumerate(args):
     if a == "--files":
         only = args[i + 1].split(",")
@@ -81,11 +85,21 @@ def main():
     rows = []
     n = 0
     t0 = time.time()
+    wanted = None
+    if from_log:
+        wanted = set()
+        for line in open(from_log):
+            m = re.match(r"(\S+):(\d+) (.*?)\s+SURVIVED", line)
+            if m:
+                wanted.add((m.group(1), int(m.group(2)), m.group(3).strip()))
+        files = [f for f in files if any(w[0] == f for w in wanted)]
     for f in files:
         src = open(os.path.join(REPO, f)).read()
         for (i, old, new, op) in mutants(f):
             if limit and n >= limit:
                 break
+            if wanted is not None and (f, i + 1, op) not in wanted:
+                continue
             lines = src.split("\n")
             lines[i] = new
             open(os.path.join(REPO, f), "w").write("\n".join(lines))
@@ -108,8 +122,9 @@ def main():
                 print("%s:%d %-22s %s %s" % (f, i + 1, op, "KILLED" if killed else "SURVIVED", res), flush=True)
             finally:
                 open(os.path.join(REPO, f), "w").write(src)
-    json.dump(rows, open(HERE + "/mutsweep/RESULTS.json", "w"), indent=1)
-    with open(HERE + "/mutsweep/RESULTS.md", "w") as fh:
+    tag = "-recheck" if from_log else ""
+    json.dump(rows, open(HERE + "/mutsweep/RESULTS%s.json" % tag, "w"), indent=1)
+    with open(HERE + "/mutsweep/RESULTS%s.md" % tag, "w") as fh:
         k = sum(1 for r in rows if r["killed"])
         fh.write("# Mutation sweep (mutants that build and pass the repository's tests): %d, killed by the quick checks: %d, survived: %d (%.0f min)\n\n" % (len(rows), k, len(rows) - k, (time.time() - t0) / 60))
         fh.write("## Survivors\n\n| file:line | operator | original | mutated | checks run |\n|---|---|---|---|---|\n")
